@@ -36,8 +36,8 @@ Proof.
   revert s; induction ops as [|o ops IH]; intros s [Hlt Hc] Hs x Hx; simpl in *; [contradiction|].
   destruct o as [c| |k|i]; simpl in *.
   - (* Rewrite *) eapply IH; [|exact Hs|exact Hx]. split; [exact Hlt | exact Hc].
-  - (* Reload *) eapply IH; [|exact Hs|exact Hx]. simpl. split; [lia|].
-    intros k c Hin. destruct (Hc k c Hin) as [H1 _]. simpl. split; [lia | intros E; lia].
+  - (* Reload *) eapply IH; [|exact Hs|exact Hx]. unfold Inv; simpl. split; [lia|].
+    intros k c Hin. destruct (Hc k c Hin) as [H1 _]. split; [lia | intros E; lia].
   - (* Handshake *)
     destruct (lookup (k, store_dh s) (cache s)) as [c|] eqn:El; simpl in *.
     + destruct Hx as [Hx|Hx].
@@ -49,10 +49,10 @@ Proof.
       destruct Hx as [Hx|Hx].
       * subst x. unfold complete. simpl. apply N.eqb_eq. exact Hsync.
       * eapply IH; [| |exact Hx]; [|intros y Hy; apply Hs; right; exact Hy].
-        simpl. split; [exact Hlt|]. intros k0 c0 [Hin|Hin].
+        unfold Inv; simpl. split; [exact Hlt|]. intros k0 c0 [Hin|Hin].
         -- inversion Hin; subst. simpl. split; [exact Hlt | intros _; exact Hsync].
         -- apply Hc; exact Hin.
-  - (* Evict *) eapply IH; [|exact Hs|exact Hx]. simpl. split; [exact Hlt|].
+  - (* Evict *) eapply IH; [|exact Hs|exact Hx]. unfold Inv; simpl. split; [exact Hlt|].
     intros k c Hin. apply Hc. eapply remove_nth_in; exact Hin.
 Qed.
 
